@@ -67,7 +67,7 @@
 //                     .tx_addpath() .max_len() .name()
 //   codec_pairs_desc(family) -> Vec<(PairDesc, PeerCodec, PeerCodec)>  all 1024
 //   codec_pairs(family) -> Vec<(String, PeerCodec /*sender*/, PeerCodec /*receiver*/)>
-//   codec_pairs_quick(family) -> same, 16-pair subset
+//   codec_pairs_quick(family) -> same, 32-pair subset
 //   default_codec_pair(family) -> (PeerCodec, PeerCodec)   AS4 both, nothing else
 //   pair_from_desc(family, &PairDesc) -> (PeerCodec, PeerCodec)
 // Messages
@@ -1495,19 +1495,22 @@ pub fn codec_pairs(family: Family) -> Vec<(String, PeerCodec, PeerCodec)> {
     codec_pairs_desc(family).into_iter().map(|(d, s, r)| (d.name(), s, r)).collect()
 }
 
-/// 16-pair subset: every *negotiated outcome* of (2-byte AS, ext-msg, ext-nh,
-/// add-path tx) = 2^4, each reached by the symmetric capability choice.
+/// 32-pair subset: every *negotiated outcome* of (2-byte AS, ext-msg, ext-nh) = 2^3, each
+/// reached by the symmetric capability choice, x the four add-path outcomes (none, both
+/// directions, send-only, receive-only: the two directions are negotiated independently).
 pub fn codec_pairs_quick(family: Family) -> Vec<(String, PeerCodec, PeerCodec)> {
     let mut out = Vec::new();
-    for i in 0..16u32 {
+    for i in 0..8u32 {
         let bit = |n: u32| i >> n & 1 == 1;
-        let d = PairDesc {
-            l_as4: !bit(0), r_as4: !bit(0), l_ext_msg: bit(1), r_ext_msg: bit(1),
-            l_ext_nh: bit(2), r_ext_nh: bit(2),
-            l_addpath: if bit(3) { 3 } else { 0 }, r_addpath: if bit(3) { 3 } else { 0 },
-        };
-        let (s, r) = pair_from_desc(family, &d);
-        out.push((d.name(), s, r));
+        for (la, ra) in [(0u8, 0u8), (3, 3), (2, 1), (1, 2)] {
+            let d = PairDesc {
+                l_as4: !bit(0), r_as4: !bit(0), l_ext_msg: bit(1), r_ext_msg: bit(1),
+                l_ext_nh: bit(2), r_ext_nh: bit(2),
+                l_addpath: la, r_addpath: ra,
+            };
+            let (s, r) = pair_from_desc(family, &d);
+            out.push((d.name(), s, r));
+        }
     }
     out
 }
